@@ -59,7 +59,9 @@ class Contract:
     def __init__(self, target, *, params=None, returns="none", requires=(), ensures=(), raises=None,
                  modifies=(), loops=None, ghost=(), inline=(), props=(), abortable=False, ppi=(),
                  extern=False, trusted_reason=None, callables=None, locals=None, fresh_result=False,
-                 pure=False, self_type=None, ghost_params=None, escapes=(), notes="", allow_any_exception=False, varargs=False, uses=(), allocates=False, defaults=None, kwargs_param=None, prefer_ext=(), noreturn=False, returns_self=False):
+                 pure=False, self_type=None, ghost_params=None, escapes=(), notes="", allow_any_exception=False, varargs=False, uses=(), allocates=False, defaults=None, kwargs_param=None, prefer_ext=(), noreturn=False, returns_self=False, interference=None):
+        # (modifies, [two-state clauses]): what an asynchronous handler may do between any two statements (rely condition)
+        self.interference = interference
         self.returns_self = returns_self   # the method returns its receiver (keeps the static/dynamic type of the argument)
         self.noreturn = noreturn
         self.prefer_ext = dict(prefer_ext) if isinstance(prefer_ext, dict) else {k: k for k in prefer_ext}   # 'Cls.method' names for which the ext:: call-site view is used instead of the real contract
